@@ -3,6 +3,7 @@
   What a proof can say: information flow - which outputs are functions of which inputs. The unpredictability of
   crypto/rand itself is trusted (PARTIAL).
 -/
+import AuthProofs.StateInventory
 import AuthProofs.Gen
 namespace AuthProps.C06
 open AuthModel AuthModel.Gen
@@ -52,6 +53,9 @@ example : ∃ seg sid, seg.length = 64 ∧ draw seg 64 = some (sid, []) :=
     have := draw_indices (List.replicate 64 7) (by intro b hb; simp at hb; subst hb; decide)
     simpa using this⟩
 
+/-- NO HIDDEN STATE: the model treats a check as a function of (configuration, request, store answers, clock, IdP and key-source answers, entropy); that is a faithful reading of the code only if nothing else survives from one check to the next. Regenerated on every run: every package-level variable and struct field of internal/server, internal/authz, internal/http, internal/oidc is the classified expectation, and handlers, filter, HTTP helpers and the Redis store own no mutable state (no verdict cache, handler cache, object pool, single-flight group or per-process copy of session data). -/
+theorem no_hidden_state : CheckPathInventory := check_path_inventory
+
 end AuthProps.C06
 
 #print axioms AuthProps.C06.sid_independent_of_public
@@ -63,3 +67,4 @@ end AuthProps.C06
 #print axioms AuthProps.C06.identifier_lengths
 #print axioms AuthProps.C06.charset_matches_source
 #print axioms AuthProps.C06.limit_formula
+#print axioms AuthProps.C06.no_hidden_state
